@@ -46,10 +46,20 @@ type FuncContract struct {
 	Inline    bool
 	External  bool // contract lives in /verif/contracts/external
 	NoSafety  bool
+	Asserts   []*AssertSpec
 	Decreases []Expr
 	File      string
 	Line      int
 	Opts      map[string]string
+}
+
+// AssertSpec: an obligation at a program point, identified by the source text
+// of a line (and the ordinal among lines with that text).
+type AssertSpec struct {
+	C      *Clause
+	Text   string
+	Ord    int
+	hits   int
 }
 
 type SpecFunc struct {
@@ -107,7 +117,7 @@ var stmtKeywords = map[string]bool{
 	"spec": true, "pred": true, "lemma": true, "axiom": true, "func": true, "interface": true, "functype": true,
 	"prop": true, "mode": true, "requires": true, "ensures": true, "panics": true, "modifies": true,
 	"decreases": true, "loop": true, "invariant": true, "closure": true, "trusted": true, "inline": true,
-	"using": true, "opt": true, "nosafety": true, "induction": true, "opaque_spec": true, "opaque_pred": true,
+	"assert": true, "using": true, "opt": true, "nosafety": true, "induction": true, "opaque_spec": true, "opaque_pred": true,
 }
 
 type stmt struct {
@@ -345,6 +355,34 @@ func (cs *Contracts) loadContractFile(path, importPath string, external bool) er
 			case "panics":
 				curF.Panics = append(curF.Panics, c)
 			}
+		case "assert":
+			if curF == nil {
+				return fmt.Errorf("%s:%d: assert outside func", path, s.line)
+			}
+			props, label, rest := parseTag(s.rest)
+			i := strings.Index(rest, "`")
+			j := -1
+			if i >= 0 {
+				j = strings.Index(rest[i+1:], "`")
+			}
+			if i < 0 || j < 0 {
+				return fmt.Errorf("%s:%d: assert needs a `source line` locator", path, s.line)
+			}
+			loc := rest[i+1 : i+1+j]
+			rest = strings.TrimSpace(rest[i+1+j+1:])
+			ord := 1
+			if strings.HasPrefix(rest, "#") {
+				f := strings.Fields(rest)[0]
+				ord, _ = strconv.Atoi(f[1:])
+				rest = strings.TrimSpace(rest[len(f):])
+			}
+			e, err := parseExpr(rest)
+			if err != nil {
+				return fmt.Errorf("%s:%d: %v", path, s.line, err)
+			}
+			cl := &Clause{Kind: "assert", Props: props, Label: label, Text: rest, Expr: e, File: path, Line: s.line}
+			lastClause = cl
+			curF.Asserts = append(curF.Asserts, &AssertSpec{C: cl, Text: loc, Ord: ord})
 		case "modifies":
 			if curF == nil {
 				return fmt.Errorf("%s:%d: modifies outside func", path, s.line)
